@@ -153,6 +153,9 @@ func scenario(site, call, opt string) string {
 			opts = append(opts, ebu.WithSubscriptionStore(ebu.NewMemoryStore()))
 		}
 	}
+	// on a persistent bus nothing is injected: every append these scenarios make succeeds
+	var persistErr atomic.Value
+	opts = append(opts, ebu.WithPersistenceErrorHandler(func(_ any, _ reflect.Type, err error) { persistErr.Store(err.Error()) }))
 	gate := make(chan struct{})
 	bus = ebu.New(opts...)
 	var so []ebu.SubscribeOption
@@ -223,6 +226,9 @@ func scenario(site, call, opt string) string {
 	bus.Wait()
 	if enteredN.Load() == 0 {
 		return "the callback site was never reached"
+	}
+	if pe, _ := persistErr.Load().(string); pe != "" {
+		return "an append made in this scenario (no fault injected) was refused by the store: " + pe
 	}
 	// visible effect of the re-entrant call
 	if strings.HasPrefix(site, "replayphase|") && (call == "clear" || call == "clearall") {
